@@ -15,10 +15,12 @@ import (
 	"encoding/hex"
 	"flag"
 	"fmt"
+	"io"
 	"os"
 	"reflect"
 	"sort"
 	"strings"
+	"testing/iotest"
 	"time"
 
 	"go.starlark.net/starlark"
@@ -290,10 +292,23 @@ func clobberFill(n int, k int) []byte {
 	return out
 }
 
+// dribble returns at most k bytes per Read.
+type dribble struct {
+	r io.Reader
+	k int
+}
+
+func (d *dribble) Read(p []byte) (int, error) {
+	if len(p) > d.k {
+		p = p[:d.k]
+	}
+	return d.r.Read(p)
+}
+
 func decodeAndClobber(id int, b1 []byte) (p *starlark.Program, how string, err error) {
 	in := append([]byte(nil), b1...)
-	fill := clobberFill(len(in), id/5)
-	switch id % 5 {
+	fill := clobberFill(len(in), id/9)
+	switch id % 9 {
 	case 0:
 		how = "bytes.Buffer, then reused for another program"
 		buf := bytes.NewBuffer(in)
@@ -322,6 +337,30 @@ func decodeAndClobber(id int, b1 []byte) (p *starlark.Program, how string, err e
 		f.Seek(0, 0)
 		f.Write(fill)
 		f.Close()
+		copy(in, fill)
+	case 5:
+		how = "iotest.OneByteReader (every Read returns one byte), then slice overwritten"
+		p, err = starlark.CompiledProgram(iotest.OneByteReader(bytes.NewReader(in)))
+		copy(in, fill)
+	case 6:
+		how = "reader returning 1-7 bytes per Read and data together with EOF, then slice overwritten"
+		p, err = starlark.CompiledProgram(iotest.DataErrReader(&dribble{r: bytes.NewReader(in), k: 1 + id%7}))
+		copy(in, fill)
+	case 7:
+		how = "io.Pipe fed in small writes"
+		rd, wr := io.Pipe()
+		go func(data []byte) {
+			for len(data) > 0 {
+				k := 1 + (len(data)+id)%5
+				if k > len(data) {
+					k = len(data)
+				}
+				wr.Write(data[:k])
+				data = data[k:]
+			}
+			wr.Close()
+		}(append([]byte(nil), in...))
+		p, err = starlark.CompiledProgram(rd)
 		copy(in, fill)
 	default:
 		how = "DecodeProgram on a byte slice, then slice overwritten"
